@@ -2,39 +2,36 @@
 // Solver counter-example(s) produced by Kani's concrete playback; replay with
 //   ./check C10 --replay /verif/replay/cases/c10__q__u8___copy.rs
 
-/// Test generated for harness `c10::q::u8_::copy` 
-///
-/// Check for `assertion`: "assertion failed: d.get(q) == ref_get_u8 (& src, w, from + q - to)"
-
+// failed check (assertion): assertion failed: d.get(q) == ref_get_u8 (& src, w, from + q - to)
 #[test]
-fn kani_concrete_playback_copy_11658636510827472728() {
+fn kani_concrete_playback_copy_13454302367160671494() {
     let concrete_vals: Vec<Vec<u8>> = vec![
-        // 0
-        vec![0],
-        // 128
-        vec![128],
-        // 19
-        vec![19],
-        // 17
-        vec![17],
-        // 254
-        vec![254],
-        // 254
-        vec![254],
-        // 178
-        vec![178],
-        // 163
-        vec![163],
+        // 136
+        vec![136],
+        // 136
+        vec![136],
+        // 35
+        vec![35],
+        // 136
+        vec![136],
+        // 63
+        vec![63],
+        // 63
+        vec![63],
+        // 125
+        vec![125],
+        // 61
+        vec![61],
         // 1ul
         vec![1, 0, 0, 0, 0, 0, 0, 0],
-        // 12ul
-        vec![12, 0, 0, 0, 0, 0, 0, 0],
-        // 23ul
-        vec![23, 0, 0, 0, 0, 0, 0, 0],
-        // 6ul
-        vec![6, 0, 0, 0, 0, 0, 0, 0],
-        // 25ul
-        vec![25, 0, 0, 0, 0, 0, 0, 0],
+        // 17ul
+        vec![17, 0, 0, 0, 0, 0, 0, 0],
+        // 5ul
+        vec![5, 0, 0, 0, 0, 0, 0, 0],
+        // 32ul
+        vec![32, 0, 0, 0, 0, 0, 0, 0],
+        // 15ul
+        vec![15, 0, 0, 0, 0, 0, 0, 0],
     ];
     kani::concrete_playback_run(concrete_vals, crate::c10::q::u8_::copy);
 }
